@@ -955,6 +955,16 @@ fn exec_op(op: &Value, ctx: &mut Ctx) {
                 }
                 drop(f);
                 drop(v);
+                // Deferrer references too
+                if let Some(d) = w(|w| w.deferrer.clone()) {
+                    let mut ds = Vec::new();
+                    for _ in 0..n {
+                        ds.push(d.clone());
+                        ds.push(a.access_deferrer().clone());
+                    }
+                    ds.reverse();
+                    drop(ds);
+                }
                 ev(format!(r#"{{"e":"refstorm","aid":{},"n":{}}}"#, aid, n));
             }
         }
